@@ -612,4 +612,13 @@ def rules(model: Model, tier: str) -> List[RuleResult]:
         _fc = _ac.get_fncls(model, _cn)
         _ac.ac11_wrapper_returns(model, _fc, _R11)
         _ac.ac11_forward_provenance(model, _fc, _R11)
-    return [R, T, Q, D, S, V, _R11]
+    from ..rules import linopalg
+    from ..rules.hermitian import hermitian_idiom
+    Hh = RuleResult(PROP, "C05-H", "every last-two-axes transpose in the dense paths and in the operator base class is conjugated (complex Hermitian operators)", min_instances=8)
+    hermitian_idiom(model, Hh, {"xitorch/_core/linop.py", "xitorch/linalg/symeig.py", "xitorch/_impls/linalg/symeig.py"},
+                    {("xitorch/_impls/linalg/symeig.py", "davidson"): "real-only path: the property quantifies complex128 over the dense paths only"})
+    ADJ = RuleResult(PROP, "C05-A", "operator algebra under svd's Gram operator: composed operators' _rmv is the formal adjoint of _mv", min_instances=4)
+    HF = RuleResult(PROP, "C05-HF", "Hermitian flag of composed operators (truth table): a wrong True turns A.H into A", min_instances=4)
+    linopalg.adjoint_structure(model, ADJ)
+    linopalg.hermitian_flags(model, HF)
+    return [R, T, Q, D, S, V, _R11, Hh, ADJ, HF]
